@@ -1083,7 +1083,7 @@ func (env *Env) call(x *ECall) (EV, error) {
 			top = env.old.Top
 		}
 		return EV{V: Gt(r, top)}, nil
-	case "sent", "recvd", "closed", "chancap":
+	case "sent", "recvd", "closed", "chancap", "drained":
 		ch, ok := args[0].V.(Term)
 		if !ok || args[0].T == nil {
 			return EV{}, fmt.Errorf("%s needs a typed channel (use sentAt(\"elemtype\", ch) for raw references)", id.Name)
@@ -1093,7 +1093,7 @@ func (env *Env) call(x *ECall) (EV, error) {
 			return EV{}, fmt.Errorf("%s needs a channel", id.Name)
 		}
 		sort := SLog
-		if id.Name == "closed" {
+		if id.Name == "closed" || id.Name == "drained" {
 			sort = SBool
 		}
 		name := id.Name
